@@ -261,3 +261,20 @@ pub fn c04_lz77_step_matches_spec() {
         cv::IntConf { split_exponent: 3, msb_in_token: 0, lsb_in_token: 1 },
     );
 }
+
+// @prop C04 C01
+// @tier thorough
+// @unit as c04_lz77_step_matches_spec
+// @sym as c04_lz77_step_matches_spec from a state with 40 decoded symbols and hybrid configurations with bits in the token: symbols (5,2,1), distances (3,1,1), lengths (4,2,0)
+// @bound one step; 40 symbols decoded so far
+// @assume as c04_lz77_step_matches_spec
+// @oblig as c04_lz77_step_matches_spec
+#[kani::proof]
+#[kani::unwind(42)]
+pub fn c04_lz77_step_matches_spec_other_configs() {
+    lz77_step_case::<40>(
+        cv::IntConf { split_exponent: 5, msb_in_token: 2, lsb_in_token: 1 },
+        cv::IntConf { split_exponent: 3, msb_in_token: 1, lsb_in_token: 1 },
+        cv::IntConf { split_exponent: 4, msb_in_token: 2, lsb_in_token: 0 },
+    );
+}
